@@ -371,6 +371,7 @@ func (p *Parser) varDecl(attrs []Attribute) (*VarDecl, *ParseError) {
 		if p.match(TokenComma) {
 			if p.check(TokenIdent) {
 				accessMode = p.advance().Lexeme
+				p.match(TokenComma) // template lists allow a trailing comma
 			}
 		}
 		p.expect(TokenGreater)
@@ -733,6 +734,7 @@ func (p *Parser) typeSpec() (Type, *ParseError) {
 		if p.match(TokenComma) {
 			if p.check(TokenIdent) {
 				accessMode = p.advance().Lexeme
+				p.match(TokenComma) // template lists allow a trailing comma
 			}
 		}
 
